@@ -2,25 +2,33 @@
 import ast
 import time
 
-CONTRACT_MODULES = []
+CONTRACT_MODULES = ['c02_outputs', 'c15_iterations']
 LEVEL = 'other'
 TRUSTED = ['LIBSPEC-os: os.replace is atomic; a file opened with "w" may hold any prefix of what was written until it is closed']
 ASSUMPTIONS = ['no other process writes the iteration file']
-EXPLANATION = ('Static obligations over the AST of biogeme.py: the iteration file is only ever produced by os.replace from a temporary file that was '
+EXPLANATION = ('Proved (pyvc, all inputs): calculate_likelihood_and_derivatives raises the best-so-far marker to f exactly when it saves (finite gradient norm, finite f, '
+               'marker None or f >= marker) and keeps it otherwise; a file is installed by os.replace iff it saves, under the iteration-file name, holding one complete '
+               '"name = value" line per free parameter in name order (loop invariant on the lines written to the temporary file); results are scaled by the sample size. '
+               'Model: a file opened for writing is the list of lines printed to it; only os.replace changes the content of a name (so a crash leaves the old or the new complete file). '
+               'Static obligations over the AST of biogeme.py: the iteration file is only ever produced by os.replace from a temporary file that was '
                'completely written, flushed and closed (crash-point clause); the best-so-far marker is assigned the value just saved under the guard '
                '"marker is None or f >= marker" (best-point clause).  The history clauses (bit-exact values, best finite point, restart, names) are '
                'explored by a bounded stand-in on the real code: all orderings of 3-4 points, non-finite points, every kill point of the rewrite.')
-LEVEL_TEXT = 'Static AST obligations on the write protocol + bounded histories / kill points on the real code; nothing is counted as a deductive proof.'
+LEVEL_TEXT = 'Deductive proof of the save protocol of one evaluation (marker, content, atomic installation model) + static AST obligations + bounded histories / kill points on the real code.'
 LEVEL_NOTE = 'Trusted: os.replace atomicity, the AST patterns recognised by the static obligations.'
-TECHNIQUE = 'static AST obligations on the write protocol + bounded history / crash-point stand-in'
+TECHNIQUE = 'contract-based deductive verification (ghost file content) + static AST obligations + bounded history / crash-point stand-in'
 DESIGN_REF = 'DESIGN.md section 3 / C15'
 
 REPLAYS = {'*': """
 import subprocess, sys, json
-r = subprocess.run([sys.executable, '/verif/bounded/c15_iterations.py', 'quick', '0'], capture_output=True, text=True)
-d = json.loads(r.stdout.strip().splitlines()[-1])
-violated = bool(d['failures'])
-detail = str([f.get('clause') for f in d['failures'][:4]])
+violated, detail = False, ''
+for script, args in (('c15_zero_best.py', []), ('c15_iterations.py', ['quick', '0'])):
+    r = subprocess.run([sys.executable, '/verif/bounded/' + script] + args, capture_output=True, text=True)
+    d = json.loads(r.stdout.strip().splitlines()[-1])
+    if d['failures']:
+        violated = True
+        detail = script + ': ' + str([(f.get('clause') or f.get('check')) for f in d['failures'][:4]])
+        break
 """}
 
 
@@ -86,6 +94,8 @@ def static_write_protocol():
 def extra(tier, seed):
     from pyvc.bounded import run_native
     out = static_write_protocol()
+    out.append(run_native('C15:bounded:best-value-exactly-zero', 'c15_zero_best.py', [],
+                          bound='3 histories on a model whose maximum log likelihood is exactly 0.0; file checked after every evaluation'))
     out.append(run_native('C15:bounded:iterations', 'c15_iterations.py', [tier, str(seed)],
                           bound='see the harness bound string: all orderings of 3-4 points, non-finite points, optimiser runs, bootstrap, names, every kill point of the rewrite', timeout=1500))
     return out
